@@ -88,6 +88,7 @@ package comdoc
 //@   ensures @listed_sectors_fit_the_header_and_the_msat_sectors (r.SectorSize == 512 ==> len(r.MSAT) <= 109 + len(r.msatList) * 127) && (r.SectorSize == 4096 ==> len(r.MSAT) <= 109 + len(r.msatList) * 1023)
 
 //@ macro readerOK(r *ComDoc) bool = r.File != nil && r.Header != nil && (r.SectorSize == 512 || r.SectorSize == 4096) && len(r.sectorBuf) == r.SectorSize
+//@ macro bufKept(r *ComDoc) bool = sameslice(r.sectorBuf, old(r.sectorBuf))
 //@
 //@ func nextInChain
 //@   property C11
@@ -105,16 +106,20 @@ package comdoc
 //@   property C11
 //@   nopanic
 //@   requires readerOK(r)
+//@   ensures readerOK(r)
+//@   modifies r.SAT, mem(r.sectorBuf)
 //@   allocbound 0 4096
-//@   loop 0 sig "for _, sector := range r.MSAT" invariant -1 <= rangeindex && rangeindex < len(pre(r.MSAT)) && readerOK(r) && len(block) == count && 0 <= sectors && sectors <= rangeindex + 1 && \
+//@   loop 0 sig "for _, sector := range r.MSAT" invariant -1 <= rangeindex && rangeindex < len(pre(r.MSAT)) && readerOK(r) && bufKept(r) && len(block) == count && 0 <= sectors && sectors <= rangeindex + 1 && \
 //@        (sat == nil || allocated(sat))
 //@
 //@ func (*ComDoc).readShortSAT
 //@   property C11
 //@   nopanic
 //@   requires readerOK(r)
+//@   ensures readerOK(r)
+//@   modifies r.SSAT, mem(r.sectorBuf)
 //@   allocbound 0 4096
-//@   loop 0 sig "for sector := r.Header.SSATNextSector; sector >= 0;" invariant readerOK(r) && len(block) == count && 0 <= sectors && (sat == nil || allocated(sat))
+//@   loop 0 sig "for sector := r.Header.SSATNextSector; sector >= 0;" invariant readerOK(r) && bufKept(r) && len(block) == count && 0 <= sectors && (sat == nil || allocated(sat))
 //@
 //@ func (*ComDoc).readShortSector
 //@   property C11
@@ -161,14 +166,17 @@ package comdoc
 //@   property C11
 //@   nopanic
 //@   requires readerOK(r)
+//@   ensures readerOK(r)
+//@   modifies r.Files, r.rootStorage, r.rootFiles, mem(r.sectorBuf)
 //@   ensures @root_storage_is_a_directory_entry ret0 == nil ==> 0 <= r.rootStorage && r.rootStorage < len(r.Files)
 //@   allocbound 0 8192
 //@   allocbound 1 8192
 //@   allocbound 2 8 * len(r.Files)
-//@   loop 2 sig "for _, f := range rootFiles" invariant -1 <= rangeindex && rangeindex < len(rootFiles) && forall(k, 0, len(rootFiles), rootFiles[k] != nil)
-//@   loop 0 sig "for sector := r.Header.DirNextSector; sector >= 0;" invariant readerOK(r) && len(raw) == count && len(cooked) == count && 0 <= sectors && \
+//@   loop 2 sig "for _, f := range rootFiles" invariant -1 <= rangeindex && rangeindex < len(rootFiles) && forall(k, 0, len(rootFiles), rootFiles[k] != nil) && allocated(r.rootFiles) && \
+//@        readerOK(r) && 0 <= r.rootStorage && r.rootStorage < len(r.Files)
+//@   loop 0 sig "for sector := r.Header.DirNextSector; sector >= 0;" invariant readerOK(r) && bufKept(r) && len(raw) == count && len(cooked) == count && 0 <= sectors && \
 //@        (rootIndex >= 0 ==> rootIndex < len(files) + 0) && -1 <= rootIndex && (files == nil || allocated(files))
-//@   loop 1 sig "for i, raw := range raw" invariant -1 <= rangeindex && rangeindex < count && len(cooked) == count && readerOK(r) && -1 <= rootIndex && rootIndex < len(files) + count
+//@   loop 1 sig "for i, raw := range raw" invariant -1 <= rangeindex && rangeindex < count && len(cooked) == count && readerOK(r) && bufKept(r) && -1 <= rootIndex && rootIndex < len(files) + count
 //@
 //@ macro cdfOK(r *ComDoc) bool = r != nil && r.Header != nil && 0 <= r.rootStorage && r.rootStorage < len(r.Files) && \
 //@        0 <= r.ShortSectorSize && r.ShortSectorSize <= r.SectorSize && r.SectorSize <= 268435456
@@ -182,3 +190,32 @@ package comdoc
 //@
 //@ extern (DirEnt).Name
 //@   pure
+//@
+//@ func (*ComDoc).readMSAT
+//@   property C11
+//@   nopanic
+//@   requires readerOK(r)
+//@   ensures readerOK(r)
+//@   modifies r.MSAT, r.msatList, mem(r.sectorBuf)
+//@   allocbound 0 4096
+//@   loop 0 sig "for nextSector >= 0" invariant readerOK(r) && bufKept(r) && len(values) == count && count == r.SectorSize / 4 && seen != nil && allocated(r.MSAT) && (r.msatList == nil || allocated(r.msatList))
+//@   loop 1 sig "for i := len(r.MSAT) - 1; i >= 0; i--" invariant i < len(r.MSAT) && readerOK(r)
+//@
+//@ func openFile
+//@   property C11
+//@   nopanic
+//@   requires reader != nil
+//@   allocbound 0 4096
+//@   deadedges 2
+//@   ensures @a_well_formed_document_or_an_error ret1 == nil ==> cdfOK(ret0)
+//@
+//@ func ReadFile
+//@   property C11 C02
+//@   nopanic
+//@   requires reader != nil
+//@   ensures @a_well_formed_document_or_an_error ret1 == nil ==> cdfOK(ret0)
+//@
+//@ func WriteFile
+//@   property C11 C18
+//@   nopanic
+//@   ensures @a_well_formed_document_or_an_error ret1 == nil ==> cdfOK(ret0)
